@@ -514,7 +514,7 @@ pub fn dml_menu(kind: Kind, thorough: bool) -> Vec<DOp> {
         m.push(DOp::Order(XS::Col("id"), OrderK::Plain(true)));
         m.push(DOp::Order(XS::Col("a"), OrderK::Nulls(false, false)));
         m.push(DOp::Order(XS::Col("b"), OrderK::Nulls(true, true)));
-        m.push(DOp::Order(XS::Bin(BOp::Add, bx(XS::Col("b")), bx(iv(6001))), OrderK::Nulls(false, true)));
+        m.push(DOp::Order(XS::Bin(BOp::Add, bx(XS::Col("b")), bx(iv(6001))), OrderK::Nulls(false, false)));
         m.push(DOp::Order(XS::Col("s"), OrderK::Field(vec![V::Str("y".into()), V::Str("x".into())])));
         m.push(DOp::Limit(2));
         m.push(DOp::Limit(0));
